@@ -21,6 +21,8 @@ pub enum Content {
     Kernel,
     /// the generated file reached through a symbolic link
     Linked(Box<Content>),
+    /// the generated file named by a path relative to the process's working directory
+    Relative(Box<Content>),
 }
 
 pub const KERNEL_SOURCE: &str = "/proc/sys/kernel/ostype";
@@ -44,7 +46,7 @@ impl Content {
             }
             Content::Text(n) => b"the quick brown fox jumps over the lazy dog\n".iter().cycle().take(*n).copied().collect(),
             Content::Kernel => std::fs::read(KERNEL_SOURCE).unwrap_or_else(|e| crate::ctx::machinery(&format!("{}: {}", KERNEL_SOURCE, e))),
-            Content::Linked(c) => c.materialize(),
+            Content::Linked(c) | Content::Relative(c) => c.materialize(),
         }
     }
     /// false if the source's modification time is not under the harness's control
@@ -56,7 +58,7 @@ impl Content {
             Content::Bytes(b) => b.len(),
             Content::Noise(n) | Content::Text(n) => *n,
             Content::Kernel => self.materialize().len(),
-            Content::Linked(c) => c.len(),
+            Content::Linked(c) | Content::Relative(c) => c.len(),
         }
     }
     pub fn to_json(&self) -> Value {
@@ -67,6 +69,7 @@ impl Content {
             Content::Text(n) => json!({"text": n}),
             Content::Kernel => json!({"kernel_file": KERNEL_SOURCE}),
             Content::Linked(c) => json!({"through_symlink": c.to_json()}),
+            Content::Relative(c) => json!({"relative_source_path": c.to_json()}),
         }
     }
 }
@@ -273,6 +276,17 @@ pub struct BuildSpec {
     /// Some(seconds east): changelog times and the source date are handed over as
     /// chrono::DateTime<FixedOffset> values in that zone (the same instants)
     pub chrono_offset: Option<i32>,
+    /// values given to a setter earlier and overwritten by a later call of the same setter: the real
+    /// builder is driven through the same sequence of calls (the earlier value must leave no trace)
+    pub overwritten: Vec<Overwritten>,
+}
+
+#[derive(Clone, Debug)]
+pub enum Overwritten {
+    Text(&'static str, String),
+    Epoch(u32),
+    Script(&'static str, ScriptSpec),
+    Compression(Comp),
 }
 
 impl BuildSpec {
@@ -302,6 +316,7 @@ impl BuildSpec {
             sign: None,
             large_files: false,
             chrono_offset: None,
+            overwritten: vec![],
         }
     }
 
@@ -320,6 +335,7 @@ impl BuildSpec {
             "sign": self.sign.map(|k| k.name()),
             "large_files": self.large_files,
             "timestamps_as_chrono_with_offset": self.chrono_offset,
+            "earlier_setter_calls_overwritten_later": self.overwritten.iter().map(|o| format!("{:?}", o)).collect::<Vec<_>>(),
         })
     }
 
@@ -338,6 +354,26 @@ impl BuildSpec {
     /// The configured builder, just before `build` / `build_and_sign`.
     pub fn builder(&self, env: &Env) -> Result<PackageBuilder, rpm::Error> {
         let mut b = PackageBuilder::new(&self.name, &self.version, &self.license, &self.arch, &self.summary);
+        // earlier calls of setters that are called again below
+        for o in &self.overwritten {
+            b = match o {
+                Overwritten::Text(f, v) => match *f {
+                    "release" => b.release(v.clone()),
+                    "description" => b.description(v.clone()),
+                    "vendor" => b.vendor(v.clone()),
+                    "packager" => b.packager(v.clone()),
+                    "group" => b.group(v.clone()),
+                    "url" => b.url(v.clone()),
+                    "vcs" => b.vcs(v.clone()),
+                    "cookie" => b.cookie(v),
+                    "build_host" => b.build_host(v),
+                    other => crate::ctx::machinery(&format!("unknown overwritten field {}", other)),
+                },
+                Overwritten::Epoch(e) => b.epoch(*e),
+                Overwritten::Script(k, sc) => script_call(b, k, sc.make()),
+                Overwritten::Compression(c) => compression_call(b, *c),
+            };
+        }
         if let Some(v) = &self.release {
             b = b.release(v.clone());
         }
@@ -369,19 +405,7 @@ impl BuildSpec {
             b = b.build_host(v);
         }
         for (k, s) in &self.scripts {
-            let sc = s.make();
-            b = match *k {
-                "pre_install" => b.pre_install_script(sc),
-                "post_install" => b.post_install_script(sc),
-                "pre_uninstall" => b.pre_uninstall_script(sc),
-                "post_uninstall" => b.post_uninstall_script(sc),
-                "pre_trans" => b.pre_trans_script(sc),
-                "post_trans" => b.post_trans_script(sc),
-                "pre_untrans" => b.pre_untrans_script(sc),
-                "post_untrans" => b.post_untrans_script(sc),
-                "verify" => b.verify_script(sc),
-                _ => b,
-            };
+            b = script_call(b, k, s.make());
         }
         for (k, v) in &self.deps {
             for d in v {
@@ -448,13 +472,7 @@ impl BuildSpec {
             }
             b = b.with_file(&src, o)?;
         }
-        b = match self.compression {
-            Comp::Default => b,
-            Comp::None => b.compression(CompressionWithLevel::None),
-            Comp::Gzip(l) => b.compression(CompressionWithLevel::Gzip(l)),
-            Comp::Zstd(l) => b.compression(CompressionWithLevel::Zstd(l)),
-            Comp::Xz(l) => b.compression(CompressionWithLevel::Xz(l)),
-        };
+        b = compression_call(b, self.compression);
         if let Some(sd) = self.source_date {
             b = match self.chrono_offset {
                 Some(off) => b.source_date(zoned(sd, off)),
@@ -469,6 +487,31 @@ impl BuildSpec {
         let mut o = vec![];
         p.write(&mut o).map_err(|e| e.to_string())?;
         Ok((p, o))
+    }
+}
+
+fn script_call(b: PackageBuilder, kind: &str, sc: Scriptlet) -> PackageBuilder {
+    match kind {
+        "pre_install" => b.pre_install_script(sc),
+        "post_install" => b.post_install_script(sc),
+        "pre_uninstall" => b.pre_uninstall_script(sc),
+        "post_uninstall" => b.post_uninstall_script(sc),
+        "pre_trans" => b.pre_trans_script(sc),
+        "post_trans" => b.post_trans_script(sc),
+        "pre_untrans" => b.pre_untrans_script(sc),
+        "post_untrans" => b.post_untrans_script(sc),
+        "verify" => b.verify_script(sc),
+        other => crate::ctx::machinery(&format!("unknown scriptlet kind {}", other)),
+    }
+}
+
+fn compression_call(b: PackageBuilder, c: Comp) -> PackageBuilder {
+    match c {
+        Comp::Default => b,
+        Comp::None => b.compression(CompressionWithLevel::None),
+        Comp::Gzip(l) => b.compression(CompressionWithLevel::Gzip(l)),
+        Comp::Zstd(l) => b.compression(CompressionWithLevel::Zstd(l)),
+        Comp::Xz(l) => b.compression(CompressionWithLevel::Xz(l)),
     }
 }
 
@@ -499,6 +542,16 @@ impl Env {
         use std::os::unix::fs::PermissionsExt;
         if let Content::Kernel = c {
             return PathBuf::from(KERNEL_SOURCE);
+        }
+        if let Content::Relative(inner) = c {
+            let real = self.source(inner, perms, mtime);
+            let cwd = std::env::current_dir().unwrap_or_else(|_| PathBuf::from("/"));
+            let mut rel = PathBuf::new();
+            for _ in cwd.components().filter(|x| matches!(x, std::path::Component::Normal(_))) {
+                rel.push("..");
+            }
+            rel.push(real.strip_prefix("/").unwrap_or(&real));
+            return rel;
         }
         if let Content::Linked(inner) = c {
             let real = self.source(inner, perms, mtime);
